@@ -13,7 +13,7 @@ BOUNDS = ("One operation from an arbitrary valid pre-state, NO feasibility preco
           "symbolic contents and symbolic capacity; Plate.transfer container->2 wells with symbolic capacity; fill_to "
           "in L/g/mol with symbolic target and capacity; dilute of binary NaCl/water and DMSO/water mixtures in M and "
           "g/L; create_solution (M+total volume, g/g+total mass, quantity+total) and create_solution_from (M, mL) with "
-          "symbolic values of either sign; a recipe transfer+fill_to through bake, and recipes drawing twice from one stock (transfer then create_solution with the stock as solvent / transfer). Amounts in [0, 1e6] storage units, "
+          "symbolic values of either sign; a recipe transfer+fill_to through bake, a transfer / fill_to applied to the result of remove(), and recipes drawing twice from one stock (transfer then create_solution with the stock as solvent / transfer). Amounts in [0, 1e6] storage units, "
           "requests in [-1e6, 1e6]. Lite rounding model for all cells, plus delta-model cells (functionally "
           "consistent rounding errors) for the exact-capacity requests: capacity and amount given by the same number.")
 OUTSIDE = ("IEEE rounding; dilute outside binary mixtures and fill_to with enzyme bystanders (decided under C11); the "
@@ -58,6 +58,9 @@ def cells(tier, seed):
     for second in ['solution', 'transfer']:
         out.append({'id': f"bake/draw+{second}", 'fn': 'h_bake_draw', 'round': 'lite', 'max_paths': 300, 'cost': 5,
                     'params': {'second': second}})
+    for unit in ['uL', 'mg']:
+        out.append({'id': f"history/remove+transfer/{unit}", 'fn': 'h_after_remove', 'round': 'lite', 'max_paths': 300, 'cost': 3,
+                    'params': {'unit': unit}})
     # exact-capacity requests under the delta rounding model
     # (transfer is decided in the lite model only: moving the whole content converts volume -> moles -> volume, and
     #  under arbitrary bounded rounding errors that round trip can exceed the capacity by one unit in the last
@@ -351,6 +354,41 @@ def h_bake(h):
     h.require('bake:acceptance-justified', feas1 & h.all_of([h.gt(T, 0), h.ge(T, vB1, sl), h.le(T, cap, sl)]))
     for c in res.values():
         _valid_state(h, 'bake', c)
+
+
+def h_after_remove(h):
+    """the state a remove() returns is the pre-state of the next request: a transfer out of it is feasible iff it fits
+    into what is really left, and a fill_to into the freed space is accepted"""
+    p = h.p
+    C = h.env.Container
+    lib = Lib(h, ['water', 'NaCl', 'DMSO'])
+    prefix, base = split_unit(p['unit'])
+    cap = h.real('cap', 1, 10**7)
+    c0 = mk_container(h, lib, 'c', ['water', 'NaCl', 'DMSO'], cap=cap, lo=Fr(1, 10))
+    h.assume(h.le(lib.volume_storage(c0.contents), cap))
+    src = c0.remove(lib['water'])
+    dst = C('dst')
+    q = h.real('q', 0, 10**6)
+    qb = q * PREFIX[prefix]
+    feasible, infeasible = _transfer_predicates(h, lib, src, dst, None, qb, base)
+    try:
+        s2, d2 = C.transfer(src, dst, f"{q} {p['unit']}")
+    except Exception as e:  # noqa: BLE001
+        if _classify(h, e, 'transfer-after-remove'):
+            h.require('transfer-after-remove:refusal-justified', infeasible,
+                      detail="a transfer that fits into what remove() left was refused")
+        return
+    h.outcome = 'ok'
+    h.require('transfer-after-remove:acceptance-justified', feasible,
+              detail="more than what remove() left was transferred")
+    _valid_state(h, 'transfer-after-remove:src', s2)
+    # refill the freed space exactly to the capacity: must be accepted
+    try:
+        r = src.fill_to(lib['DMSO'], f"{cap} {h.env.config.volume_storage_unit}")
+    except ValueError as e:
+        h.fail('fill-after-remove:accepted', f"filling the space freed by remove() up to the capacity was refused: {e}")
+        return
+    _valid_state(h, 'fill-after-remove', r)
 
 
 def h_bake_draw(h):
